@@ -318,8 +318,21 @@ func scenMicroGate(s *Sim) {
 				}
 				inReb++
 				callAllow := int64(s.Pick(100)) < allowInReb
+				if extraPoller {
+					// with a second polling goroutine an AllowRebalance from
+					// here resets the count under a poll that goroutine may be
+					// blocked in at the gate; its release would then be taken
+					// from the first poller's next hold (the counter-reset
+					// design, not a defect): not generated
+					callAllow = false
+				}
 				mu.Unlock()
 				if callAllow {
+					// (it resets the poll count like any AllowRebalance: for the
+					// first poller's ordering rule above it is a new generation)
+					mu.Lock()
+					allowGen++
+					mu.Unlock()
 					g.AllowRebalance() // no poll is outstanding here: a legal no-op
 					s.Probe("allow_inside_rebalance")
 				}
